@@ -11,10 +11,17 @@
    C09_modes_preserve_other_kind, C09_new_never_drops (without --baseline) and
    C09_unrecorded_always_fails (under fail-fast) were refuted by the faithful model and by the
    binary (witness histories in known_findings/C09.json, section fixed).
+   Round 3: a path that is not valid UTF-8 has no key (fix D55: [has_key], [records]; before it the
+   key was that of the lossy form and two such files shared an entry); a run that updates the
+   baseline ignores fail-fast (fix D56: [effective_fail_fast], [run_loop]); the tool's own state
+   files are not project entries (fix D53: scan stage, outside this model; tied on the CLI). One
+   open class: a backslash in a file name is a separator for path_key on every platform, so two
+   different files can share a key (D54, K09_backslash_name: C09_key_injective_refuted /
+   _modulo_known).
    All statements quantify over arbitrary result lists, baselines, flags and histories. *)
 From Coq Require Import NArith List Bool.
 From SG Require Import Check.Results Check.ExitCode Check.BMap Check.Ratchet Check.Baseline
-     Check.FailFast Check.Proofs_Check Check.Proofs_C09.
+     Check.FailFast Check.Proofs_Check Check.Proofs_C09 Check.Proofs_C11 Check.Proofs_Keys.
 Import ListNotations.
 Open Scope N_scope.
 
@@ -68,7 +75,8 @@ Proof. exact new_never_drops. Qed.
 Print Assumptions C09_new_never_drops.
 
 (* content mode: the structure entries afterwards are exactly those before (minus keys that now
-   carry a content violation); structure mode symmetrically *)
+   carry a content violation); structure mode symmetrically. [records r] = r is a violation and
+   its path has a key *)
 Theorem C09_modes_preserve_other_kind :
   forall R dirs b we k e,
   let d1 := o_disk (check_step (update_flags UContent we) R dirs (Some b)) in
@@ -76,11 +84,11 @@ Theorem C09_modes_preserve_other_kind :
   (is_structure_entry e = true ->
    (olookup k d1 = Some e <->
     lookup k (rekey b) = Some e /\
-    forall r, In r R -> violating r = true -> is_structure r = false -> key_of r <> k)) /\
+    forall r, In r R -> records r = true -> is_structure r = false -> key_of r <> k)) /\
   (is_content_entry e = true ->
    (olookup k d2 = Some e <->
     lookup k (rekey b) = Some e /\
-    forall r, In r R -> violating r = true -> baselinable r <> None -> key_of r <> k)).
+    forall r, In r R -> records r = true -> baselinable r <> None -> key_of r <> k)).
 Proof. exact modes_preserve_other_kind. Qed.
 Print Assumptions C09_modes_preserve_other_kind.
 
@@ -121,6 +129,66 @@ Theorem C09_key_spelling_invariant :
    norm_key (46 :: 47 :: p) = norm_key p /\ norm_key (46 :: 92 :: p) = norm_key p).
 Proof. exact key_spelling_invariant. Qed.
 Print Assumptions C09_key_spelling_invariant.
+
+(* ---- D56: an updating run is never cut short by fail-fast. Whatever the loop of a run with
+   --update-baseline hands on ([run_loop]: fail-fast by flag or configuration, any interleaving),
+   it is the full list, so the file written is the one the run without fail-fast writes -- and the
+   round trip C09_roundtrip holds after `check --update-baseline all --fail-fast` too *)
+Theorem C09_update_run_not_truncated :
+  forall fl ob R R', f_update fl <> None -> run_loop fl ob R R' -> R' = R.
+Proof. exact update_run_not_truncated. Qed.
+Print Assumptions C09_update_run_not_truncated.
+
+Theorem C09_update_under_fail_fast_same_file :
+  forall m we ff ob R R' dirs disk,
+  run_loop (update_flags_ff m we ff) ob R R' ->
+  o_disk (check_step (update_flags_ff m we ff) R' dirs disk) = o_disk (check_step (update_flags m we) R dirs disk).
+Proof. exact update_under_fail_fast_same_file. Qed.
+Print Assumptions C09_update_under_fail_fast_same_file.
+
+(* ---- D55: paths that are not valid UTF-8. Every baseline file holds Unicode strings ([ovalid]:
+   all keys are strings of scalar values) and every run keeps it so; a violation at a path without
+   a key is never grandfathered -- reported Failed, exit 1, whatever the file holds, for every
+   fail-fast execution -- and never recorded *)
+Theorem C09_baseline_keys_stay_valid :
+  forall fl R dirs disk, ovalid disk -> ovalid (o_disk (check_step fl R dirs disk)).
+Proof. exact valid_step. Qed.
+Print Assumptions C09_baseline_keys_stay_valid.
+
+Theorem C09_baseline_keys_stay_valid_history :
+  forall (project : Type) (eval : project -> list result) (dirs_of : project -> list key)
+         (ops : list (op project)) (st : hstate project),
+  ovalid (h_disk project st) -> ovalid (h_disk project (run_history project eval dirs_of ops st)).
+Proof. exact valid_history. Qed.
+Print Assumptions C09_baseline_keys_stay_valid_history.
+
+Theorem C09_path_without_key_always_fails :
+  forall fl R R' dirs disk loaded r,
+  ovalid disk -> load_for_run fl disk = Some loaded -> ff_sub loaded R R' ->
+  In r R -> is_failed r = true -> has_key r = false -> f_warn_only fl = false ->
+  o_exit (check_step fl R' dirs disk) = 1 /\
+  (In r R' -> In r (o_results (check_step fl R' dirs disk))).
+Proof. exact no_key_always_fails. Qed.
+Print Assumptions C09_path_without_key_always_fails.
+
+(* the key of a path is a string of scalar values exactly when the path is *)
+Theorem C09_key_valid_iff_path_valid : forall p, utf8_str (norm_key p) = utf8_str p.
+Proof. exact utf8_norm_key. Qed.
+Print Assumptions C09_key_valid_iff_path_valid.
+
+(* ---- D54 (open, K09_backslash_name): is the key injective on files? Two path strings name one
+   file on a POSIX file system when they have the same root marker and the same components
+   ([posix_same]). Refuted with a backslash in a name; proved for paths without one. The
+   executable classifier of the known class is [has_bslash p || has_bslash q]. *)
+Theorem C09_key_injective_refuted :
+  exists p q, ~ posix_same p q /\ norm_key p = norm_key q /\ has_bslash p = true /\ has_bslash q = false.
+Proof. exact key_not_injective_with_backslash. Qed.
+Print Assumptions C09_key_injective_refuted.
+
+Theorem C09_key_injective_modulo_known :
+  forall p q, has_bslash p || has_bslash q = false -> norm_key p = norm_key q -> posix_same p q.
+Proof. exact key_injective_modulo_known. Qed.
+Print Assumptions C09_key_injective_modulo_known.
 
 (* ---- non-vacuity and witnesses *)
 Definition fa : result := mkResult [46;47;97] Content Failed 12 10 [1].           (* ./a over *)
@@ -181,3 +249,51 @@ Example C09_key_spellings :
   norm_key [46;46;47;97] = [46;46;47;97].
 Proof. vm_compute. repeat split; reflexivity. Qed.
 Print Assumptions C09_key_spellings.
+
+(* D56, the pre-repair behaviour: had the updating run been cut short (the sequential fail-fast
+   run stops at the new failure a; b and z, grandfathered by the loaded baseline, are behind it),
+   the rebuilt file would hold a only and the next check would fail; with the full list it passes *)
+Definition fz : result := mkResult [46;47;122] Content Failed 12 10 [3].
+Example C09_truncated_update_old_refuted :
+  let bl := Some [([98], EContent 12 [2]); ([122], EContent 12 [3])] in
+  let plain := mkFlags true None None None false false false in
+  ff_seq bl [fa; fb; fz] = [fa] /\
+  o_exit (check_step plain [fa; fb; fz] [] (o_disk (check_step (update_flags UAll true) [fa] [] bl))) = 1 /\
+  o_exit (check_step plain [fa; fb; fz] [] (o_disk (check_step (update_flags UAll true) [fa; fb; fz] [] bl))) = 0 /\
+  effective_fail_fast (update_flags_ff UAll true true) = false /\
+  effective_fail_fast (mkFlags true None None None false false true) = true.
+Proof. vm_compute. repeat split; reflexivity. Qed.
+Print Assumptions C09_truncated_update_old_refuted.
+
+(* D55: src/<ff>.rs (violating) and src/<fe>.rs are not valid UTF-8 (units DCFF / DCFE). The file
+   holds the lossy key src/<U+FFFD>.rs written before the repair: neither path matches it, the
+   violation fails the run, an update records nothing for it and keeps the file valid *)
+Definition pff : str := [115;114;99;47;56575;46;114;115].
+Definition pfe : str := [115;114;99;47;56574;46;114;115].
+Definition lossy : key := [115;114;99;47;65533;46;114;115].
+Example C09_no_key_nonvacuous :
+  let rff := mkResult pff Content Failed 30 10 [] in
+  let rfe := mkResult pfe Content Passed 1 10 [] in
+  let bl := Some [(lossy, EContent 30 [])] in
+  has_key rff = false /\ utf8_str lossy = true /\
+  map r_status (o_results (check_step (mkFlags true None None None false false false) [rff; rfe] [] bl)) = [Failed; Passed] /\
+  o_exit (check_step (mkFlags true None None None false false false) [rff; rfe] [] bl) = 1 /\
+  o_disk (check_step (update_flags UAll false) [rff; rfe] [] None) = Some [] /\
+  (* --files <fe> --ratchet strict / auto: the entry of the other file is not touched *)
+  o_exit (check_step (mkFlags true None (Some RStrict) None false false false) [rfe] [] bl) = 0 /\
+  o_disk (check_step (mkFlags true None (Some RAuto) None false false false) [rfe] [] bl) = bl.
+Proof. vm_compute. repeat split; reflexivity. Qed.
+Print Assumptions C09_no_key_nonvacuous.
+
+(* D54, the masking it causes in the model as in the binary: the baseline records src/a/b.rs; a
+   file literally named a\b.rs in src, over the limit, is reported grandfathered and the run
+   passes; the hypotheses of the modulo theorem are satisfiable *)
+Example C09_backslash_name_masks :
+  let bl := Some [([115;114;99;47;97;47;98;46;114;115], EContent 30 [])] in
+  let r := mkResult [46;47;115;114;99;47;97;92;98;46;114;115] Content Failed 30 10 [] in
+  map r_status (o_results (check_step (mkFlags true None None None false false false) [r] [] bl)) = [Grandfathered] /\
+  o_exit (check_step (mkFlags true None None None false false false) [r] [] bl) = 0 /\
+  has_bslash [115;114;99;47;97] || has_bslash [46;47;115;114;99;47;47;97] = false /\
+  norm_key [115;114;99;47;97] = norm_key [46;47;115;114;99;47;47;97].
+Proof. vm_compute. repeat split; reflexivity. Qed.
+Print Assumptions C09_backslash_name_masks.
